@@ -147,8 +147,44 @@ func roRun(t testing.TB, tr *tracer, c roCase, root string, readOnly bool, after
 	return s.call(roRequest(c, root, h))
 }
 
+// roPipelined: modifying requests sent back-to-back to a read-only server whose output is read slowly: every one of them is
+// answered with permission denied under ITS OWN id, in order.
+func roPipelined(t testing.TB, tr *tracer, round int) {
+	root := roTree(t, "ro")
+	tr.reset(kv{"kind": "readonly", "typ": "PIPELINE", "pflags": 0, "target": "file", "aflags": 0, "via": "path", "round": round})
+	before := treeDigest(root)
+	s := newSrvSession(t, tr, srvOpts{kind: "server", readOnly: true, quiet: true})
+	s.s2c.afterWrite = func(b []byte) { time.Sleep(2 * time.Millisecond) } // a slow reader: responses queue up in the server
+	s.start()
+	defer func() {
+		s.endEOF()
+		s.waitServe(10 * time.Second)
+		s.conn.Close()
+		waitFor(5*time.Second, s.finiSeen)
+	}()
+	s.call(fInit(3))
+	p := func(n string) string { return filepath.Join(root, n) }
+	frames := [][]byte{fMkdir(11, p("nd")), fIDStr(tRemove, 12, p("file")), fIDStr(tRmdir, 13, p("dir")), fTwo(tRename, 14, p("file"), p("file2")),
+		fSetstat(15, p("file"), wattrs{Flags: 4, Perm: 0o600}), fTwo(tSymlink, 16, p("file"), p("ln2")), fOpen(17, p("new"), 2|8, wattrs{})}
+	n0 := s.nResps()
+	for _, fr := range frames {
+		s.feed(fr, true)
+	}
+	ok := s.waitResps(n0+len(frames), 10*time.Second)
+	for i := 0; ok && i < len(frames); i++ {
+		r := s.resp(n0 + i)
+		if r.Typ != tStatus || r.Code != 3 || r.ID != uint32(11+i) {
+			ok = false
+		}
+	}
+	tr.emit("ROPipe", kv{"ok": ok, "same": treeDigest(root) == before, "n": len(frames)})
+}
+
 func TestVerif_ReadOnly(t *testing.T) {
 	tr := newTracer(t)
+	for round := 0; round < 3; round++ {
+		roPipelined(t, tr, round)
+	}
 	var cases []roCase
 	if !loadScenarios(t, "VERIF_SCEN", &cases) {
 		t.Fatal("C09 needs the case table exported from ReadOnlyEnum.tla (VERIF_SCEN)")
